@@ -55,10 +55,10 @@ func VF_C06_L1_Revocation() {
 	seenReqs := len(w.mq.reqs)
 	zzvf.Reach("c06-established")
 
-	sent := 0           // events emitted by the service
-	delivered := 0      // highest event number delivered to the client
-	awaiting := false   // a trigger was processed and its verdict is not known yet
-	barrier := 0        // events numbered above this must wait for the verdict
+	sent := 0         // events emitted by the service
+	delivered := 0    // highest event number delivered to the client
+	awaiting := false // a trigger was processed and its verdict is not known yet
+	barrier := 0      // events numbered above this must wait for the verdict
 	unsubscribed := false
 	tokN := 0
 	accessAfterTrigger := true
